@@ -4,7 +4,7 @@ import VelaVerif.Props.C01Softmax
 # C01 — the lowering of the SOFTMAX decomposition: rows of a decoded command stream against rows of the model
 
 `check_C01` (stream `softmax_lowering`) decodes the command stream of every compiled 8-bit SOFTMAX into one integer row per pass
-(`SoftmaxLower.streamRows` … `segmentRows`) and compares them with `SoftmaxLower.modelRows P` = the rows of `lower P (graph8 P)` for the
+(`SoftmaxLower.groupsOf`, `segmentRows`) and compares them with `SoftmaxLower.modelRows P` = the rows of `lower P (graph8 P)` for the
 parameters `P` of that network.  The theorems here say what an agreement means: the row format loses nothing the interpreter reads
 (`row_determines_value`), so a stream whose rows are the model's rows denotes — as a program of `SoftmaxExec` — the function
 `runGraph8 P` (`rows_eq_model_run`), which is the TFLite kernel (`rows_eq_model_reference`, from `C01Softmax.softmax8_decomposition_eq_reference`).
